@@ -1,6 +1,6 @@
 """C03 -- every algorithm returns a well-formed consensus over exactly the universe."""
 from vf import ref
-from vf.core import exc_desc
+from vf.core import call, exc_desc
 from vf.lazy import ck, libx, common
 from vf.monitors import algos
 
@@ -70,24 +70,22 @@ def check_case(case, ctx):
                 any_ilp = True
     if any_ilp:
         ctx.count("ilp_cases")
-    # history: the same Dataset object is mutated in place, then aggregated again by the same algorithm objects
+    # history: the same Dataset object is mutated in place (or a dataset derived from it is), then aggregated again by the
+    # same algorithm objects; what it must return is judged against the rankings the Dataset holds now
     elems = ref.universe(ds)
-    if len(elems) >= 3:
+    if len(elems) >= 2:
         import random
         r2 = random.Random(case["libseed"])
-        victim = r2.choice(elems)
-        ds2 = [[[e for e in b if e != victim] for b in r] for r in ds]
-        ds2 = [[b for b in r if b] for r in ds2]
-        ds2 = [r for r in ds2 if r]
-        if ds2 and libx.normalise_raw(ds2) == ds2:
-            try:
-                dataset.remove_elements({ck.Element(victim)})
-            except Exception:      # pylint: disable=broad-except
-                return
+        kind, ok = algos.mutate_in_place(dataset, ds, r2)
+        st_now, now = call(libx.raw_dataset, dataset)
+        if ok and st_now == "ok" and ref.universe(now):
+            if kind.startswith("derived") and [ref.canon(r) for r in now] != [ref.canon(r) for r in ds]:
+                ctx.count("left_to_C15_C16:source-changed-by-derived-dataset")
+            ctx.count("history:" + kind)
             for cfg in case["configs"][:3]:
                 ctx.count("runs_after_in_place_mutation")
-                judge_run(ctx, cfg, dataset, libx.raw_dataset(dataset), scheme, sch, case["one"], case["libseed"],
-                          {"after_remove_elements": victim, "original_ds": ds})
+                judge_run(ctx, cfg, dataset, now, scheme, sch, case["one"], case["libseed"],
+                          {"after": kind, "original_ds": ds})
 
 
 def judge_run(ctx, cfg, dataset, ds, scheme, sch, one, libseed, extra):
@@ -136,6 +134,10 @@ def reach(counters, tier, info):
     v = counters.get("runs_after_in_place_mutation", 0)
     out.append({"name": "runs on a Dataset object mutated in place after a first series of runs", "observed": v,
                 "required": 300 if tier == "quick" else 3000, "ok": v >= (300 if tier == "quick" else 3000)})
+    for kind in ("remove_empty", "remove_elements", "rate", "derived-unified", "derived-projection"):
+        v = counters.get("history:" + kind, 0)
+        req = 25 if tier == "quick" else 250
+        out.append({"name": f"histories whose step is {kind}", "observed": v, "required": req, "ok": v >= req})
     v = counters.get("ilp_cases", 0)
     out.append({"name": "datasets on which an ILP was really built", "observed": f"{v}/{cases}",
                 "required": ">= 30%", "ok": cases > 0 and v >= 0.3 * cases})
